@@ -93,6 +93,24 @@ def len_scale_of(kind, geo):
     return 2.0
 
 
+EXTV = ("ExtDrift", "ExtDrift2", "DriftExt")  # variants with external drift rows
+
+
+def DRIFT_EXT_FN(*p):
+    return 0.3 * p[0] - 0.1 * p[-1]
+
+
+def ext_values(variant, n, nt):
+    """external drift at the conditioning pool and at the targets (two rows for ExtDrift2)"""
+    c1 = np.array([0.3, 1.1, 0.7, 1.9, 0.2, 1.4, 0.9, 0.5, 1.6, 1.2])[:n]
+    t1 = 0.25 + 0.1 * np.arange(nt) ** 1.3
+    if variant != "ExtDrift2":
+        return c1, t1
+    c2 = np.array([1.2, 0.1, 0.8, 0.4, 1.7, 0.6, 1.0, 0.2, 1.5, 0.9])[:n]
+    t2 = 0.9 - 0.07 * np.arange(nt) ** 1.1
+    return np.vstack([c1, c2]), np.vstack([t1, t2])
+
+
 DATA = np.array([0.47, 1.56, -0.74, 1.0, 2.2, 0.3, 1.9])
 
 
@@ -146,8 +164,11 @@ def build_pair(case, cond_pos, cond_val, *, exact, cond_err, pinv, proc, cond_ex
         k = gs.krige.Universal(model, cond_pos, cond_val, "quadratic", **common)
         drift_fns = [lambda *p: p[0], lambda *p: p[0] * p[0]]
         mean = None
-    elif variant == "ExtDrift":
+    elif variant in ("ExtDrift", "ExtDrift2"):
         k = gs.krige.ExtDrift(model, cond_pos, cond_val, cond_ext, **common)
+        mean = None
+    elif variant == "DriftExt":  # functional drift and external drift in one system
+        k = gs.Krige(model, cond_pos, cond_val, drift_functions=[DRIFT_EXT_FN], ext_drift=cond_ext, **common)
         mean = None
     elif variant == "Detrended":
         tr = trend if trend is not None else (lambda *p: 0.1 + 0.03 * p[0])
@@ -176,18 +197,20 @@ def _ref_only(case, cond_pos, cond_val, exact, cond_err, proc, cond_ext, nug, mo
         drift_fns, mean = [lambda *p: np.sin(0.05 * p[0]) + 0.0 * p[-1]], None
     elif variant == "UniversalQuad":
         drift_fns, mean = [lambda *p: p[0], lambda *p: p[0] * p[0]], None
-    elif variant == "ExtDrift":
+    elif variant in ("ExtDrift", "ExtDrift2"):
         mean = None
+    elif variant == "DriftExt":
+        drift_fns, mean = [DRIFT_EXT_FN], None
     elif variant == "Detrended":
         trend = trend if trend is not None else (lambda *p: 0.1 + 0.03 * p[0])
         norm, mean, unb = None, None, False
     elif variant == "GenericDrift":
         drift_fns, unb = [lambda *p: 1.0 + 0.0 * p[0], lambda *p: p[0]], False
-    return kr.RefKrige(cls, opts, 1.3, ls, nug, geo, cond_pos, cond_val, unbiased=unb, drift_fns=drift_fns, cond_ext=cond_ext if variant == "ExtDrift" else None, mean=mean, trend=trend, normalizer=norm, exact=exact, cond_err=cond_err, gs_model=model)
+    return kr.RefKrige(cls, opts, 1.3, ls, nug, geo, cond_pos, cond_val, unbiased=unb, drift_fns=drift_fns, cond_ext=cond_ext if variant in EXTV else None, mean=mean, trend=trend, normalizer=norm, exact=exact, cond_err=cond_err, gs_model=model)
 
 
 def n_min(variant, fd):
-    return {"Simple": 1, "Ordinary": 2, "Universal": fd + 2, "UniversalCustom": 3, "UniversalQuad": 4, "ExtDrift": 3, "Detrended": 1, "GenericDrift": 3}[variant]
+    return {"Simple": 1, "Ordinary": 2, "Universal": fd + 2, "UniversalCustom": 3, "UniversalQuad": 4, "ExtDrift": 3, "ExtDrift2": 4, "DriftExt": 4, "Detrended": 1, "GenericDrift": 3}[variant]
 
 
 def case_krige(case):
@@ -200,9 +223,8 @@ def case_krige(case):
     n = len(idx)
     extra = {"variant": variant, "cls": case["cls"], "kind": case["kind"]}
     z = DATA[:n].copy()
-    ext_c = np.array([0.3, 1.1, 0.7, 1.9, 0.2, 1.4, 0.9])[:n]
-    ext_t = 0.25 + 0.1 * np.arange(T.shape[1]) ** 1.3
     nt = T.shape[1]
+    ext_c, ext_t = ext_values(variant, n, nt)
     judged = 0
 
     def run_pair(k, ref, tp, what, ext=None, **kw):
@@ -210,7 +232,7 @@ def case_krige(case):
         if k is None or not (ref.cond < 1e10):
             return None
         kwargs = dict(kw)
-        if variant == "ExtDrift":
+        if variant in EXTV:
             kwargs["ext_drift"] = ext
         f, v = k(tp, **kwargs)
         w, est, var = ref.solve(tp, ext)
@@ -240,26 +262,28 @@ def case_krige(case):
             e = np.zeros(n)
             e[i] = 1.0
             ki, refi = build_pair(case, cp, e, cond_ext=ext_c, **dict(base, proc=("none", "none", "none")))
-            kw = {"ext_drift": ext_t} if variant == "ExtDrift" else {}
+            kw = {"ext_drift": ext_t} if variant in EXTV else {}
             fi = ki(T, return_var=False, **kw)
             if variant == "Detrended":  # affine in the data (the trend is removed and added back)
                 r.close("data = unit vector e_i: estimate == dense solution", fi, refi.post(refi.solve(T, ext_t)[1], T), rtol=1e-7, atol=ref.tol(1.0), i=i, **extra)
             else:
                 r.close("data = unit vector e_i gives the kriging weights of point i", fi, W[i], rtol=1e-7, atol=ref.tol(1.0), i=i, **extra)
-    if variant in ("Ordinary", "Universal", "UniversalCustom", "UniversalQuad", "ExtDrift"):
+    if variant in ("Ordinary", "Universal", "UniversalCustom", "UniversalQuad") + EXTV:
         kc, refc = build_pair(case, cp, np.full(n, 3.25), cond_ext=ext_c, **base)
-        kw = {"ext_drift": ext_t} if variant == "ExtDrift" else {}
+        kw = {"ext_drift": ext_t} if variant in EXTV else {}
         r.close("unbiased variant reproduces a constant", kc(T, return_var=False, **kw), np.full(nt, 3.25), rtol=1e-7, atol=ref.tol(3.25), **extra)
-    if variant in ("Universal", "UniversalQuad", "UniversalCustom"):
+    if variant in ("Universal", "UniversalQuad", "UniversalCustom", "DriftExt"):
+        kw = {"ext_drift": ext_t} if variant in EXTV else {}
         for j, fn in enumerate(ref.drift_fns):
             zc = np.asarray(fn(*cp), dtype=float) * np.ones(n)
-            kd, refd = build_pair(case, cp, zc, **base)
-            r.close("universal kriging reproduces its drift function", kd(T, return_var=False), np.asarray(fn(*T), dtype=float) * np.ones(nt), rtol=1e-6, atol=ref.tol(float(np.abs(zc).max())) * 10, drift=j, **extra)
-    if variant == "ExtDrift":
-        kd, refd = build_pair(case, cp, ext_c.copy(), cond_ext=ext_c, **base)
-        r.close("external drift kriging reproduces its drift", kd(T, ext_drift=ext_t, return_var=False), ext_t, rtol=1e-6, atol=ref.tol(2.0) * 10, **extra)
+            kd, refd = build_pair(case, cp, zc, cond_ext=ext_c, **base)
+            r.close("universal kriging reproduces its drift function", kd(T, return_var=False, **kw), np.asarray(fn(*T), dtype=float) * np.ones(nt), rtol=1e-6, atol=ref.tol(float(np.abs(zc).max())) * 10, drift=j, **extra)
+    if variant in EXTV:
+        for j in range(np.atleast_2d(ext_c).shape[0]):
+            kd, refd = build_pair(case, cp, np.atleast_2d(ext_c)[j].copy(), cond_ext=ext_c, **base)
+            r.close("external drift kriging reproduces its drift", kd(T, ext_drift=ext_t, return_var=False), np.atleast_2d(ext_t)[j], rtol=1e-6, atol=ref.tol(2.0) * 10, **extra)
     # (c) chunking / mesh type / return_var / only_mean / get_mean
-    kw = {"ext_drift": ext_t} if variant == "ExtDrift" else {}
+    kw = {"ext_drift": ext_t} if variant in EXTV else {}
     for cs in [1, 2, nt - 1, nt + 3]:
         fc, vc = k(T, chunk_size=cs, **kw)
         r.close("result independent of chunk_size (field)", fc, f0, rtol=1e-10, atol=1e-12, chunk=cs, **extra)
@@ -267,7 +291,9 @@ def case_krige(case):
     r.close("return_var=False gives the same field", k(T, return_var=False, **kw), f0, rtol=1e-12, atol=1e-13, **extra)
     g = np.array([a.ravel() for a in np.meshgrid(*ax, indexing="ij")])
     eg = 0.3 + 0.05 * np.arange(g.shape[1])
-    kws = {"ext_drift": eg} if variant == "ExtDrift" else {}
+    if variant == "ExtDrift2":
+        eg = np.vstack([eg, 1.0 - 0.03 * np.arange(g.shape[1]) ** 1.2])
+    kws = {"ext_drift": eg} if variant in EXTV else {}
     fs, vs = k(ax, mesh_type="structured", **kws)
     fu, vu = k(g, **kws)
     r.close("structured mesh == same points unstructured (field)", fs.ravel(), fu, rtol=1e-10, atol=1e-12, **extra)
@@ -280,7 +306,7 @@ def case_krige(case):
         r.close("get_mean(post_process) == denormalize(mean + kriged mean)", gmp, me + (ref._ev(ref.mean, cp) if not callable(ref.mean) else 0.0), rtol=1e-7, atol=ref.tol(2.0), **extra)
         fm = k(T, only_mean=True)
         r.close("only_mean field == mean estimate everywhere", fm, np.full(nt, gmp), rtol=1e-7, atol=ref.tol(2.0), **extra)
-    elif variant in ("Universal", "UniversalQuad", "ExtDrift"):
+    elif variant in ("Universal", "UniversalQuad") + EXTV:
         _, em, _ = ref.solve(T, ext_t, only_mean=True)
         fm = k(T, only_mean=True, **kw)
         r.close("only_mean field == drift part of the kriging system", fm, ref.post(em, T), rtol=1e-6, atol=ref.tol(2.0) * 10, **extra)
@@ -288,17 +314,17 @@ def case_krige(case):
     if n <= case.get("perm_n", 4):
         for perm in itertools.permutations(range(n)):
             perm = list(perm)
-            kp, _ = build_pair(case, cp[:, perm], z[perm], cond_ext=ext_c[perm], **base)
+            kp, _ = build_pair(case, cp[:, perm], z[perm], cond_ext=ext_c[..., perm], **base)
             fp, vp = kp(T, **kw)
             r.close("result independent of the order of conditioning points (field)", fp, f0, rtol=1e-7, atol=ref.tol(2.0), **extra)
             r.close("result independent of the order of conditioning points (variance)", vp, v0, rtol=1e-7, atol=ref.tol(1.0), **extra)
     for perm in itertools.permutations(range(4)):
         perm = list(perm)
-        kwp = {"ext_drift": ext_t[perm]} if variant == "ExtDrift" else {}
+        kwp = {"ext_drift": ext_t[..., perm]} if variant in EXTV else {}
         fp, vp = k(T[:, perm], **kwp)
         r.close("result independent of the order of target points", fp, f0[perm], rtol=1e-10, atol=1e-12, **extra)
     # (e) mean / trend / normalizer pipeline
-    if variant in ("Simple", "Ordinary", "Universal", "ExtDrift"):
+    if variant in ("Simple", "Ordinary", "Universal") + EXTV:
         zp = np.abs(z) + 0.4
         for proc in [("const" if variant == "Simple" else "none", "call", "none"), ("call" if variant == "Simple" else "none", "none", "ln"), ("none", "call", "bc")]:
             if proc[1] == "call" and proc[2] != "none":
@@ -317,7 +343,113 @@ def case_krige(case):
     return r.done(outcome=[round(float(x), 7) for x in f0[:3]], sub={"kriging_systems_judged": judged})
 
 
-GROUPS = {"krige": case_krige}
+# ---------------------------------------------------------------------------------------------
+# histories: the inverted kriging matrix / isometrised conditioning positions belong to the
+# *current* model and conditions after every documented refresh (set_condition)
+MOPS = {
+    "anis": lambda m, d: setattr(m, "anis", [0.35, 1.7][: d - 1] + ([float(m.anis[-1])] if m.temporal else [])),
+    "angles": lambda m, d: setattr(m, "angles", [1.1, 0.4, -0.6][: d * (d - 1) // 2]),
+    "len": lambda m, d: setattr(m, "len_scale", 3.1),
+    "var": lambda m, d: setattr(m, "var", 0.7),
+    "nugget": lambda m, d: setattr(m, "nugget", 0.2),
+}
+
+
+def case_refresh(case):
+    """apply a history of in-place model changes and set_condition calls; after each refresh the
+    object must equal the dense solution for the present model and conditions"""
+    r = R()
+    variant, kind, sdim = case["variant"], case["kind"], case["sdim"]
+    P, T, ax = pool(kind, sdim, case["gen"])
+    idx = list(case["layout"])
+    n = len(idx)
+    z = DATA[:n].copy()
+    ext_all, ext_t = ext_values(variant, 10, T.shape[1])
+    st = {"var": 1.3, "ls": len_scale_of(kind, geo_of(kind, sdim, case["aniso"])), "nug": case["nugget"], "idx": idx, "z": z}
+    geo = geo_of(kind, sdim, case["aniso"])
+    proc = ("const" if variant in ("Simple", "GenericDrift") else "none", "none", "none")
+    base = dict(exact=False, cond_err="nugget", pinv="pinv", proc=proc)
+    k, ref0 = build_pair(case, P[:, idx], z, cond_ext=ext_all[..., idx], **base)
+    if k is None:
+        return r.done(skip="kriging system numerically singular (cond > 1e10)")
+    kw = {"ext_drift": ext_t} if variant in EXTV else {}
+    k(T, **kw)  # warm start: every cache is filled for the initial setup
+    extra = {"variant": variant, "kind": kind}
+    judged = 0
+    for step, op in enumerate(case["hist"]):
+        if op in MOPS:
+            if op in ("anis", "angles") and (geo.kind.startswith("latlon") or sdim == 1):
+                return r.done(skip="no anisotropy / rotation in this geometry")
+            MOPS[op](k.model, sdim)
+            if op == "anis":
+                geo.anis = [0.35, 1.7][: sdim - 1]
+            elif op == "angles":
+                geo.angles = [1.1, 0.4, -0.6][: sdim * (sdim - 1) // 2]
+            elif op == "len":
+                st["ls"] = 3.1
+            elif op == "var":
+                st["var"] = 0.7
+            elif op == "nugget":
+                st["nug"] = 0.2
+            continue
+        if op == "refresh":
+            k.set_condition()
+        elif op == "newval":
+            st["z"] = st["z"][::-1] * 0.5 + 0.25
+            k.set_condition(cond_val=st["z"])
+        elif op == "newpos":
+            st["idx"] = [(i + 1) % P.shape[1] for i in st["idx"]]
+            st["z"] = st["z"] + 0.1
+            ekw = {"ext_drift": ext_all[..., st["idx"]]} if variant in EXTV else {}
+            k.set_condition(P[:, st["idx"]], st["z"], **ekw)
+        # reference for the present state
+        c2 = dict(case, nugget=st["nug"])
+        mean, trend, norm = _mean_trend_norm(proc)
+        model = kr.make_gs_model(case["cls"], MODELS[case["cls"]], st["var"], st["ls"], st["nug"], geo)
+        ref = _ref_state(c2, P[:, st["idx"]], st["z"], proc, ext_all[..., st["idx"]], st, model, geo)
+        if not (ref.cond < 1e10):
+            return r.done(skip="kriging system numerically singular (cond > 1e10)")
+        if case.get("mode") == "exact":  # used by C06: exactness at the present conditioning locations
+            cpn = P[:, st["idx"]]
+            fe, ve = k(cpn, **({"ext_drift": ext_all[..., st["idx"]]} if variant in EXTV else {}))
+            tol = max(1e-8, 1e2 * ref.tol(float(np.abs(st["z"]).max())))
+            r.close("after refresh: field at a conditioning location == conditioning value", fe, st["z"], rtol=1e-8, atol=tol, step=step, **extra)
+            r.true("after refresh: kriging variance at a conditioning location == 0", bool(np.all(np.abs(ve) <= 1e-8 * ref.sill + 1e2 * kr.EPS * ref.cond * ref.sill)), info=ve.tolist(), step=step, **extra)
+            judged += 1
+            continue
+        f, v = k(T, **kw)
+        w, est, var = ref.solve(T, ext_t)
+        tol = ref.tol(float(np.abs(ref.ztilde()).max()))
+        r.close("after refresh: kriging field == dense solution for the present model and conditions", f, ref.post(est, T), rtol=1e-7, atol=tol, step=step, **extra)
+        r.close("after refresh: kriging variance == dense solution for the present model and conditions", v, np.maximum(var, 0.0), rtol=1e-7, atol=1e3 * kr.EPS * ref.cond * ref.sill + 1e-12, step=step, **extra)
+        judged += 1
+    return r.done(outcome=judged, sub={"kriging_systems_judged": judged})
+
+
+def _ref_state(case, cond_pos, cond_val, proc, cond_ext, st, model, geo):
+    variant, cls = case["variant"], case["cls"]
+    mean, trend, norm = _mean_trend_norm(proc)
+    fd = geo.field_dim
+    drift_fns, unb = [], True
+    if variant == "Simple":
+        unb = False
+    elif variant == "Ordinary":
+        mean = None
+    elif variant == "Universal":
+        drift_fns, mean = [(lambda *p, i=i: p[i]) for i in range(fd)], None
+    elif variant in ("ExtDrift", "ExtDrift2"):
+        mean = None
+    elif variant == "DriftExt":
+        drift_fns, mean = [DRIFT_EXT_FN], None
+    elif variant == "Detrended":
+        trend = lambda *p: 0.1 + 0.03 * p[0]
+        norm, mean, unb = None, None, False
+    elif variant == "GenericDrift":
+        drift_fns, unb = [lambda *p: 1.0 + 0.0 * p[0], lambda *p: p[0]], False
+    return kr.RefKrige(cls, MODELS[cls], st["var"], st["ls"], st["nug"], geo, cond_pos, cond_val, unbiased=unb, drift_fns=drift_fns, cond_ext=cond_ext if variant in EXTV else None, mean=mean, trend=trend, normalizer=norm, exact=False, cond_err="nugget", gs_model=model)
+
+
+GROUPS = {"krige": case_krige, "refresh": case_refresh}
 
 
 def layouts(P, nmin, nmax, full):
@@ -337,12 +469,35 @@ def layouts(P, nmin, nmax, full):
     return res
 
 
+def refresh_cases(tier, gen, mops, depth, nugget=None, mode=None):
+    cops = ["refresh", "newval", "newpos"]
+    hists = []
+    for L in range(1, depth + 1):
+        for h in itertools.product(mops + cops, repeat=L):
+            if h[-1] in cops:  # the documented refresh ends every judged history
+                hists.append(list(h))
+    hcases = []
+    hvariants = ["Simple", "Ordinary", "Universal", "ExtDrift", "ExtDrift2", "DriftExt", "Detrended", "GenericDrift"]
+    for kind, sdim in [("euclid", 2), ("euclid", 3), ("time", 2), ("latlon", 3)]:
+        P, T, ax = pool(kind, sdim, gen)
+        for variant in hvariants if tier != "quick" or (kind, sdim) == ("euclid", 2) else ["Simple", "Universal", "DriftExt"]:
+            nm = max(n_min(variant, geo_of(kind, sdim, False).field_dim), 4)
+            for cls in ["Exponential"] if tier == "quick" else ["Exponential", "Gaussian", "Matern"]:
+                for aniso in (False, True):
+                    for h in hists:
+                        c = {"variant": variant, "cls": cls, "kind": kind, "sdim": sdim, "aniso": aniso, "layout": list(range(0, 2 * nm, 2))[:nm] if P.shape[1] >= 2 * nm - 1 else list(range(nm)), "nugget": (0.0 if aniso else 0.3) if nugget is None else nugget, "gen": gen, "hist": h}
+                        if mode:
+                            c["mode"] = mode
+                        hcases.append(c)
+    return hcases
+
+
 def run(chk):
     tier = chk.tier
     gen = generic_values(chk.seed, 2, 0.05, 0.45, "C05gen")
     cases = []
     kinds = [("euclid", 1), ("euclid", 2), ("euclid", 3), ("time", 2), ("latlon", 3), ("latlon+time", 3)]
-    variants = ["Simple", "Ordinary", "Universal", "UniversalCustom", "ExtDrift", "Detrended", "GenericDrift"]
+    variants = ["Simple", "Ordinary", "Universal", "UniversalCustom", "ExtDrift", "ExtDrift2", "DriftExt", "Detrended", "GenericDrift"]
     quick_models = ["Gaussian", "Exponential", "Spherical", "Matern", "Stable"]
     models = quick_models if tier == "quick" else list(MODELS)
     for kind, sdim in kinds:
@@ -368,5 +523,9 @@ def run(chk):
                         for nug in ((0.0, 0.3) if tier != "quick" and len(lay) <= 4 else (0.0 if len(lay) % 2 else 0.3,)):
                             cases.append({"variant": variant, "cls": cls, "kind": kind, "sdim": sdim, "aniso": aniso, "layout": lay, "nugget": nug, "gen": gen, "perm_n": 3 if tier == "quick" else 4})
     chk.run("krige", case_krige, cases, rule="variant (Simple, Ordinary, Universal linear/quadratic/custom, ExtDrift, Detrended, generic drift without unbiasedness) x model x {dim 1,2,3, 2D+time, lat-lon, lat-lon+time} x {isotropic, anisotropic+rotated / km scale + time anisotropy} x conditioning layouts (all k-subsets of the point pool for the reference model, selected subsets otherwise) x nugget; inside each case: exact x measurement-error kind x pseudo-inverse type, unit-vector / constant / drift / generic data, chunk sizes, mesh types, all permutations of <= 4 data and 4 targets, mean/trend/normalizer combinations", max_skip_frac=0.6, chunk=4)
+    # histories of in-place model changes, refreshes and new conditions
+    depth = 3 if tier == "quick" else 4
+    hcases = refresh_cases(tier, gen, list(MOPS), depth)
+    chk.run("refresh", case_refresh, hcases, rule=f"variant x geometry (2-D, 3-D, 2-D+time, lat-lon) x isotropic/anisotropic start x every history of length <= {depth} over in-place model changes {{anis, angles, len_scale, var, nugget}} and set_condition {{no argument, new values, new positions}} that ends with a set_condition; the object was called before the history (all caches warm); after every set_condition the result is compared with the dense solution for the present model and conditions", max_skip_frac=0.6, chunk=16)
     chk.assume("numerically singular systems (condition number > 1e10, e.g. collinear layouts under a linear drift) are skipped by a counted guard; tolerance 1e3*eps*cond(K)*(|data|+1)")
     chk.assume("covariances of Gaussian, Exponential, Spherical, Stable, Matern, Cubic, Rational are evaluated by formulas of the oracle; for the other classes the library's cor() is used (decided by C03)")
